@@ -6,10 +6,11 @@ from sqlglot import expressions as exp
 from sidemantic.sql.aggregation_detection import sql_has_aggregate
 
 
-def extract_column_references(sql_expr: str) -> set[str]:
+def extract_column_references(sql_expr: str, keep_qualifier: bool = False) -> set[str]:
     """Extract all column references from a SQL expression.
 
-    Returns set of column names (without table prefixes).
+    Returns set of column names (without table prefixes, unless keep_qualifier is set,
+    in which case a reference written as model.column is returned as "model.column").
     """
     try:
         parsed = sqlglot.parse_one(sql_expr, read="duckdb")
@@ -18,8 +19,11 @@ def extract_column_references(sql_expr: str) -> set[str]:
 
     columns = set()
     for col in parsed.find_all(exp.Column):
-        # Get column name without table prefix
-        columns.add(col.name)
+        if keep_qualifier and col.table:
+            columns.add(f"{col.table}.{col.name}")
+        else:
+            # Get column name without table prefix
+            columns.add(col.name)
 
     return columns
 
@@ -66,8 +70,9 @@ def extract_metric_dependencies(metric_obj, graph=None, model_context=None) -> s
             # Expression metric with inline aggregations - no measure dependencies
             return deps
 
-        # Extract column references from expression
-        refs = extract_column_references(metric_obj.sql)
+        # Extract column references from expression (a reference written as model.measure
+        # stays qualified so that same-named measures of different models are told apart)
+        refs = extract_column_references(metric_obj.sql, keep_qualifier=True)
 
         # Use graph to resolve references if available
         if graph:
